@@ -33,7 +33,8 @@ Servers == {Order[i] : i \in 1..Len(Order)}
 CONSTANTS MaxForced, MaxTry, MaxFail,
           FailKinds,
           MinReg,       \* least number of registered servers
-          Renames,      \* BOOLEAN: also choose a subset of servers registered under an upper-case name
+          Renames,      \* BOOLEAN: also choose registration histories: a subset of servers registered under an
+                        \* upper-case name, and a subset that was away while an earlier player joined
           NVH           \* use the first NVH spellings of VHostTable (0 = all)
 
 Lower(c) == IF c \in 65..90 THEN c + 32 ELSE c
@@ -102,30 +103,34 @@ CleanOK == \A i \in 1..Len(VHostTable) : Clean(VHostTable[i][1]) = VHostTable[i]
 
 SeqsUpTo(S, n) == UNION {[1..k -> S] : k \in 0..n}
 
-VARIABLES forced, try, vh, reg, ren, fails,  \* the history's inputs (chosen one by one in the "c*" phases)
+VARIABLES forced, try, vh, reg, ren, away, fails,  \* the history's inputs (chosen one by one in the "c*" phases)
           st,        \* "c1".."c6" | "new" | "connecting" | "connected" | "disconnected"
           cands, cursor, target, log, kicks
-vars == <<forced, try, vh, reg, ren, fails, st, cands, cursor, target, log, kicks>>
+vars == <<forced, try, vh, reg, ren, away, fails, st, cands, cursor, target, log, kicks>>
 
 NoForced == [has |-> FALSE, key |-> <<>>, list |-> <<>>]
 
-Init == /\ forced = NoForced /\ try = <<>> /\ vh = <<>> /\ reg = {} /\ ren = {} /\ fails = <<>>
+Init == /\ forced = NoForced /\ try = <<>> /\ vh = <<>> /\ reg = {} /\ ren = {} /\ away = {} /\ fails = <<>>
         /\ st = "c1" /\ cands = <<>> /\ cursor = 1 /\ target = "" /\ log = <<>> /\ kicks = 0
 
 Rest == UNCHANGED <<cands, cursor, target, log, kicks>>
-C1 == st = "c1" /\ st' = "c2" /\ Rest /\ UNCHANGED <<try, vh, reg, ren, fails>>
+C1 == st = "c1" /\ st' = "c2" /\ Rest /\ UNCHANGED <<try, vh, reg, ren, away, fails>>
       /\ forced' \in [has : {TRUE}, key : Keys, list : SeqsUpTo(Servers, MaxForced)] \cup {NoForced}
-C2 == st = "c2" /\ st' = "c3" /\ Rest /\ UNCHANGED <<forced, vh, reg, ren, fails>> /\ try' \in SeqsUpTo(Servers, MaxTry)
-C3 == st = "c3" /\ st' = "c4" /\ Rest /\ UNCHANGED <<forced, try, reg, ren, fails>> /\ vh' \in VHosts
+C2 == st = "c2" /\ st' = "c3" /\ Rest /\ UNCHANGED <<forced, vh, reg, ren, away, fails>> /\ try' \in SeqsUpTo(Servers, MaxTry)
+C3 == st = "c3" /\ st' = "c4" /\ Rest /\ UNCHANGED <<forced, try, reg, ren, away, fails>> /\ vh' \in VHosts
 C4 == st = "c4" /\ st' = "c5" /\ Rest /\ UNCHANGED <<forced, try, vh, fails>>
       /\ reg' \in {S \in SUBSET Servers : Cardinality(S) >= MinReg}
       \* registered servers that were re-registered through the API under an upper-case name
       \* ("S2" for "s2"); server names are case-insensitive, so this changes nothing in the model
       /\ ren' \in (IF Renames THEN SUBSET reg' ELSE {{}})
+      \* registered servers that were unregistered while an EARLIER player (same host, same proxy)
+      \* joined and were registered again before this player joins; the choice for this player
+      \* depends on the registration in force for it only, so nothing changes in the model either
+      /\ away' \in (IF Renames THEN SUBSET reg' ELSE {{}})
 \* the number of failures first, then their kinds (so that random walks see every length equally often)
-C5 == st = "c5" /\ Rest /\ UNCHANGED <<forced, try, vh, reg, ren>>
+C5 == st = "c5" /\ Rest /\ UNCHANGED <<forced, try, vh, reg, ren, away>>
       /\ \E n \in 0..MaxFail : fails' = [i \in 1..n |-> "?"] /\ st' = (IF n = 0 THEN "new" ELSE "c6")
-C6 == st = "c6" /\ st' = "new" /\ Rest /\ UNCHANGED <<forced, try, vh, reg, ren>> /\ fails' \in [1..Len(fails) -> FailKinds]
+C6 == st = "c6" /\ st' = "new" /\ Rest /\ UNCHANGED <<forced, try, vh, reg, ren, away>> /\ fails' \in [1..Len(fails) -> FailKinds]
 
 Go(cs, i) == IF i = 0 THEN /\ st' = "disconnected" /\ UNCHANGED <<cursor, target, log>>
              ELSE /\ st' = "connecting" /\ cursor' = i /\ target' = cs[i] /\ log' = Append(log, cs[i])
@@ -133,14 +138,14 @@ Go(cs, i) == IF i = 0 THEN /\ st' = "disconnected" /\ UNCHANGED <<cursor, target
 Join == /\ st = "new"
         /\ cands' = Candidates(forced, try, vh)
         /\ Go(cands', NextIdx(cands', 1, reg, {}))
-        /\ UNCHANGED <<forced, try, vh, reg, ren, fails, kicks>>
+        /\ UNCHANGED <<forced, try, vh, reg, ren, away, fails, kicks>>
 
 Outcome == /\ st = "connecting"
            /\ IF Len(log) > Len(fails)
               THEN st' = "connected" /\ UNCHANGED <<cursor, target, log, kicks>>
               ELSE /\ kicks' = kicks + 1
                    /\ Go(cands, NextIdx(cands, From(cursor, fails[Len(log)]), reg, Excluded(target, fails[Len(log)], reg)))
-           /\ UNCHANGED <<forced, try, vh, reg, ren, fails, cands>>
+           /\ UNCHANGED <<forced, try, vh, reg, ren, away, fails, cands>>
 
 Next == C1 \/ C2 \/ C3 \/ C4 \/ C5 \/ C6 \/ Join \/ Outcome
 Spec == Init /\ [][Next]_vars
@@ -161,6 +166,6 @@ DisconnectMeansNoneLeft ==
 Terminal == st \in {"connected", "disconnected"}
 \* a history is exported when it used all its failures (or ended before it could)
 Emit == (Terminal /\ (st = "disconnected" \/ Len(log) = Len(fails) + 1)) =>
-            PrintT(<<"HIST", ToJson([forced |-> forced, try |-> try, vh |-> vh, reg |-> reg, ren |-> ren, fails |-> fails,
+            PrintT(<<"HIST", ToJson([forced |-> forced, try |-> try, vh |-> vh, reg |-> reg, ren |-> ren, away |-> away, fails |-> fails,
                                      log |-> log, st |-> st])>>)
 =============================================================================
